@@ -74,6 +74,11 @@ CHECKS = {
          "TLC checks SameAtomAsPdb on the model of the current assembly code for every shape (record type, id width, 1-4 character names, alt id, 1-3 character comp ids, negative / four-digit residue numbers, insertion codes, coordinate widths up to 8, formal charge) under both conventions of the parsing dependency; each shape is realised as files, the record produced by cif.read_cif must equal the model's and the PDB reader's; eight generated structures (alt locs, insertion codes, negative numbers, wide coordinates, hydrogens, two models numbered 8/9 and 9/10) must give identical PQR atoms from both encodings.",
          "Only mmcif-pdbx 2.1.0 is installed; the verbatim-marker convention is realised by a shim after pdbx.load; label_* and auth_* names are equal in generated files; writers and projections are harness code.",
          "DESIGN.md 6/C10", ["CifColumns", "CifColumnsTrace"]),
+ "C02": ("model_checking",
+         "TLA+ spec Termini (both passes of set_termini incl. chain splitting at hidden ends, assign_termini with cyclic test and backward scan): TLC exhaustive over ~3.7k chain configurations against an independent segment definition; every configuration replayed on the real read_pdb/Biomolecule/set_termini; TLC trace validation (TerminiTrace) of terminus flags and of residue charges from pipeline runs against a formal-charge table",
+         "TLC checks TerminiOncePerEnd for every configuration in the bound (amino runs with OXT anywhere, nucleotide runs, hetero tails, caps, two chains, cyclic flag, neutral options); the real code's flags on each concretised configuration must equal the model's (zero drift) and satisfy the clauses; pipeline runs of every residue type and named variant at each position, DNA/RNA strands, multi-chain inputs with numbering offsets, three peptides under one chain id, neutral termini and the cyclic peptide are judged on ChargeIsFormal, StrandCharge, WaterNeutral, TotalIntegral.",
+         "Formal-charge table is chemistry written into the trace spec; only fully parameterised residues are judged; unit-level cyclic inputs fake N-C closeness; concretisation and residue matching are harness code.",
+         "DESIGN.md 6/C02", ["Termini", "MC_Termini", "TerminiTrace"]),
 }
 
 NOT_YET = "check not built yet (build round in progress); planned per DESIGN.md section 6"
